@@ -38,6 +38,9 @@ type Doc struct {
 	People []*Person
 	Fams   []*Fam
 	Order  []string // record order (pointers); nil = people then families
+	// records that are neither individuals nor families (raw lines): before everything, after the first
+	// record, after everything
+	Pre, Mid, Post []string
 }
 
 func (d *Doc) person(ptr string) *Person {
@@ -79,7 +82,15 @@ func (d *Doc) Text() string {
 			order = append(order, f.Ptr)
 		}
 	}
-	for _, ptr := range order {
+	for _, l := range d.Pre {
+		sb.WriteString(l + "\n")
+	}
+	for oi, ptr := range order {
+		if oi == 1 {
+			for _, l := range d.Mid {
+				sb.WriteString(l + "\n")
+			}
+		}
 		if p := d.person(ptr); p != nil {
 			fmt.Fprintf(&sb, "0 @%s@ INDI\n1 NAME %s\n", p.Ptr, p.Name)
 			for _, s := range p.Sex {
@@ -113,6 +124,9 @@ func (d *Doc) Text() string {
 		for _, e := range f.Extra {
 			sb.WriteString(e + "\n")
 		}
+	}
+	for _, l := range d.Post {
+		sb.WriteString(l + "\n")
 	}
 	return sb.String()
 }
@@ -281,6 +295,20 @@ func slots(variant string) []slot {
 			p.Extra = append(p.Extra, "1 EVEN", "2 DATE 32 Jan 1850", "1 RESI", "2 DATE 1850 x")
 		})},
 	}})
+	// dates below records that are neither individuals nor families
+	head := []string{"0 HEAD", "1 SOUR x", "2 DATE 30 Feb 2001", "1 DATE 1 Jan 2001"}
+	sour := []string{"0 @S1@ SOUR", "1 TITL t", "1 DATA", "2 EVEN BIRT", "3 DATE from then on", "1 CHAN", "2 DATE 2 Feb 2002"}
+	custom := []string{"0 @X1@ _CUSTOM", "1 DATE 31 Apr 1900", "0 @N1@ NOTE n", "1 CHAN", "2 DATE 0 Jan 1900"}
+	out = append(out, slot{"other-records", []alt{
+		{"head-bad-date", func(d *Doc) { d.Pre = head }},
+		{"source-bad-date-at-the-end", func(d *Doc) { d.Post = sour }},
+		{"custom-and-note-bad-dates-after-first-record", func(d *Doc) { d.Mid = custom }},
+		{"all-three", func(d *Doc) { d.Pre, d.Mid, d.Post = head, custom, sour }},
+		{"good-dates-only", func(d *Doc) {
+			d.Pre = []string{"0 HEAD", "1 DATE 1 Jan 2001"}
+			d.Post = []string{"0 @S1@ SOUR", "1 CHAN", "2 DATE 2 Feb 2002", "0 TRLR"}
+		}},
+	}})
 	return out
 }
 
@@ -290,6 +318,7 @@ type kase struct {
 	Devs    [][2]int `json:"devs"`
 	Order   []string `json:"order,omitempty"`
 	ChilRev bool     `json:"chil_reversed,omitempty"`
+	Victim  int      `json:"victim,omitempty"` // unit rewarn: 1 + index of the line removed after the first report
 }
 
 func (k kase) doc() (*Doc, []string) {
@@ -321,6 +350,15 @@ func ptr(n *gedcom.IndividualNode) string {
 }
 
 // implKeys maps the implementation's warnings to the reference's key form.
+func contains(root gedcom.Node, n gedcom.Node) bool {
+	for _, c := range root.Nodes() {
+		if c == n || contains(c, n) {
+			return true
+		}
+	}
+	return false
+}
+
 func implKeys(ws gedcom.Warnings) (keys []string, ctxProblem string) {
 	for _, w := range ws {
 		ctx := w.Context()
@@ -349,6 +387,17 @@ func implKeys(ws gedcom.Warnings) (keys []string, ctxProblem string) {
 		case *gedcom.IncorrectEventOrderWarning:
 			keys = append(keys, fmt.Sprintf("IncorrectEventOrder|%s|%s-before-%s", ptr(ctx.Individual), x.FirstEvent.Tag().Tag(), x.SecondEvent.Tag().Tag()))
 		case *gedcom.UnparsableDateWarning:
+			// a date below a record that is neither an individual nor a family belongs to nobody (the context the
+			// library attaches to such a warning is not part of the oracle)
+			var rec gedcom.Node
+			if ctx.Individual != nil {
+				rec = ctx.Individual
+			} else if ctx.Family != nil {
+				rec = ctx.Family
+			}
+			if rec == nil || !contains(rec, x.Date) {
+				ctxRec = "-"
+			}
 			keys = append(keys, fmt.Sprintf("UnparsableDate|%s|%s", ctxRec, x.Date.Value()))
 		case *gedcom.MultipleSexesWarning:
 			keys = append(keys, "MultipleSexes|"+ptr(x.Individual))
@@ -499,6 +548,22 @@ func run(tier, unit string, r *vlib.Rec) {
 				r.Sample(map[string]interface{}{"document": text, "warnings": exp})
 			}
 		}
+	case "rewarn": // every single removal of a line (depth 1 and 2) after the warnings have been asked for, assignments with <=1 deviation
+		sets := devSets(len(ss), ss, 1)
+		for i := lo; i < hi; i++ {
+			for vi := 0; ; vi++ {
+				k := kase{Variant: variant, Devs: sets[i], Victim: vi + 1}
+				s, w, ok := judgeAfterEdit(k, vi)
+				if !ok {
+					break
+				}
+				r.Eval()
+				r.Count("rewarn")
+				if s != "" {
+					r.Fail(s, w, k)
+				}
+			}
+		}
 	case "perm": // all record orders and child orders of the 5-record skeleton, for assignments with <=1 deviation (quick) / <=2 (thorough)
 		sets := devSets(len(ss), ss, maxDev(tier)-1)
 		base := defaultDoc(variant)
@@ -534,6 +599,10 @@ func plan(tier string) []string {
 		ss := slots(v)
 		out = append(out, vlib.Chunks("assign:"+v, int64(len(devSets(len(ss), ss, maxDev(tier)))), 300)...)
 	}
+	for _, v := range []string{"k2", "small"} {
+		ss := slots(v)
+		out = append(out, vlib.Chunks("rewarn:"+v, int64(len(devSets(len(ss), ss, 1))), 8)...)
+	}
 	ss := slots("small")
 	out = append(out, vlib.Chunks("perm:small", int64(len(devSets(len(ss), ss, maxDev(tier)-1))), 4)...)
 	return out
@@ -542,6 +611,10 @@ func plan(tier string) []string {
 func replay(c json.RawMessage) (string, string) {
 	var k kase
 	json.Unmarshal(c, &k)
+	if k.Victim > 0 {
+		s, w, _ := judgeAfterEdit(k, k.Victim-1)
+		return s, w
+	}
 	s, w := judge(k)
 	if s != "" && k.Order != nil {
 		s = "permuted:" + s
@@ -553,7 +626,7 @@ func main() {
 	vlib.Main(&vlib.Check{
 		ID:    "C20",
 		Level: "exploration",
-		Rule: "cases: skeletons (two families sharing the father with 0..3 children in the first and one in the second; one family with two children) with every date/sex slot at its no-warning default, then every assignment with <=2 (quick) / <=3 (thorough) slots deviating to a value placed clearly on one side of a threshold (sibling gaps -400d..+280d incl. 1,2,273,274 days; marriage at 16y/100y -+30d; death at 100y -+40d; baptism/burial one day before / same day / after; sexes; unparsable DATEs at several depths); for the 5-record skeleton all 120 record orders x both child orders. " +
+		Rule: "cases: skeletons (two families sharing the father with 0..3 children in the first and one in the second; one family with two children) with every date/sex slot at its no-warning default, then every assignment with <=2 (quick) / <=3 (thorough) slots deviating to a value placed clearly on one side of a threshold (rewarn: after the warnings were asked for, every single line at depth 1 and 2 removed with DeleteNode in turn and the warnings asked for again, against a fresh decode of the present text; sibling gaps -400d..+280d incl. 1,2,273,274 days; marriage at 16y/100y -+30d; death at 100y -+40d; baptism/burial one day before / same day / after; sexes; unparsable DATEs at several depths); for the 5-record skeleton all 120 record orders x both child orders. " +
 			"Non-trivial = documents for which the reference expects at least one warning; distinct by text.",
 		Assumptions: []string{
 			"reference evaluator ref/warn.go works on the reference decoder's tree and on own day arithmetic; ages use 365.25-day years and every threshold slot keeps >=30 days distance from it",
@@ -566,7 +639,7 @@ func main() {
 		Replay: replay,
 		Required: func(string) []string {
 			return []string{"perm", "expected:none", "expected:ChildBornBeforeParent", "expected:SiblingsBornTooClose", "expected:MarriedOutOfRange", "expected:IndividualTooOld",
-				"expected:IncorrectEventOrder", "expected:UnparsableDate", "expected:MultipleSexes", "expected:InverseSpouses"}
+				"expected:IncorrectEventOrder", "expected:UnparsableDate", "expected:MultipleSexes", "expected:InverseSpouses", "rewarn", "slot:other-records=all-three"}
 		},
 		Deadline: func(tier string) time.Duration {
 			if tier == "thorough" {
